@@ -250,3 +250,98 @@ Section with_tables2.
     assert (G' = G) as -> by congruence. apply Hc, Hv, Hn.
   Qed.
 End with_tables2.
+
+(* ================= 4. top-level statements ================= *)
+Definition agreesA (A : gmap string bool) (v : val) : Prop := ∀ n b, A !! n = Some b → v n = b.
+
+Lemma free_startpoints c : cnf_wf c → free_nodes c = startpoints c.
+Proof.
+  intros Hwf. apply set_eq. intros n. unfold free_nodes, startpoints. rewrite elem_of_dom, elem_of_of_type.
+  split.
+  - intros [i [Hn Hf]%map_filter_lookup_Some]. exists i. split; [done|]. simpl in Hf.
+    specialize (Hwf n i Hn). unfold node_wf in Hwf. unfold is_free in Hf. unfold is_ty.
+    destruct (n_ty i); try done; exfalso; apply bool_decide_eq_true in Hf; rewrite Hf, size_empty in Hwf; lia.
+  - intros (i & Hn & Ht). exists i. apply map_filter_lookup_Some. split; [done|]. simpl. unfold is_free, is_ty in *.
+    destruct (n_ty i); try done.
+Qed.
+Lemma consistent_agree c v v' : closed c → agrees (dom c) v v' → consistent c v → consistent c v'.
+Proof.
+  intros Hcl Hag Hv n i Hn. specialize (Hv n i Hn). unfold node_ok in *. destruct (is_free i); [done|].
+  assert (H1 : v n = v' n) by (apply Hag, elem_of_dom; eauto).
+  assert (H2 : ∀ t, gate_val t v (n_fi i) = gate_val t v' (n_fi i)).
+  { intros. apply gate_val_ext. intros f Hf. apply Hag. eapply Hcl; eauto. }
+  destruct (n_ty i); rewrite <- ?H1, <- ?H2; done.
+Qed.
+
+Section top.
+  Context (T : cnf_tables).
+  Hypothesis Htab : cnf_tables_ok T = true.
+
+  Theorem cnf_complete C ord F : cnf_wf (c_g C) → cnf_with T C ord = Ok F →
+    ∀ v, consistent (c_g C) v → ∃ a, sat a F ∧ agrees (dom (c_g C)) (a ∘ VN) v.
+  Proof. intros Hwf HF v Hv. exists (ext v). split; [by eapply cnf_with_complete_ext|done]. Qed.
+
+  Theorem cnf_acyclic_unique C ord F : cnf_wf (c_g C) → closed (c_g C) → acyclic (c_g C) → cnf_with T C ord = Ok F →
+    ∀ ρ : val, ∃ a, sat a F ∧ agrees (startpoints (c_g C)) (a ∘ VN) ρ ∧
+      ∀ a', sat a' F → agrees (startpoints (c_g C)) (a' ∘ VN) ρ → agrees (dom (c_g C)) (a ∘ VN) (a' ∘ VN).
+  Proof.
+    intros Hwf Hcl Hac HF ρ. destruct (unique_extension _ Hcl Hac ρ) as (v & Hv & Hag & Hu).
+    rewrite (free_startpoints _ Hwf) in *.
+    exists (ext v). split; [by eapply cnf_with_complete_ext|]. split; [exact Hag|].
+    intros a' Ha' Hag'. apply Hu; [|done]. by eapply cnf_with_sound.
+  Qed.
+
+  Lemma sat_assume a A F : sat a (assume A F) ↔ sat a F ∧ agreesA A (a ∘ VN).
+  Proof.
+    unfold assume, sat. rewrite sat_cnf_app, andb_true_iff.
+    assert (sat_cnf a (map (λ p : string * bool, [(p.2, VN p.1)]) (map_to_list A)) = true ↔ agreesA A (a ∘ VN)) as ->; [|done].
+    unfold sat_cnf. rewrite forallb_forall. split.
+    - intros H n b Hn. specialize (H [(b, VN n)]). simpl. apply eqb_prop.
+      assert (sat_clause a [(b, VN n)] = true) as Hc.
+      { apply H. apply in_map_iff. exists (n, b). split; [done|]. by apply elem_of_list_In, elem_of_map_to_list. }
+      unfold sat_clause, sat_lit in Hc. simpl in Hc. by rewrite orb_false_r in Hc.
+    - intros H cl Hin. apply in_map_iff in Hin as ([n b] & <- & Hin). apply elem_of_list_In, elem_of_map_to_list in Hin.
+      unfold sat_clause, sat_lit. simpl. specialize (H n b Hin). simpl in H. rewrite H, orb_false_r. apply eqb_reflx.
+  Qed.
+  Lemma cnf_assume_spec C ord A F : cnf_with T C ord = Ok F → dom A ⊆ dom (c_g C) →
+    ∃ F', cnf_assume T C ord A = Ok F' ∧ ∀ a, sat a F' ↔ sat a F ∧ agreesA A (a ∘ VN).
+  Proof.
+    intros HF Hd. unfold cnf_assume. rewrite HF. simpl. destruct (decide (A = ∅)) as [->|].
+    - exists F. split; [done|]. intros a. split; [|tauto]. intros ?. split; [done|]. intros n b. by rewrite lookup_empty.
+    - rewrite decide_True by done. exists (assume A F). split; [done|]. intros a. apply sat_assume.
+  Qed.
+  Lemma readback_lookup c a n : readback c a !! n = (c !! n) ≫= λ _, Some (a (VN n)).
+  Proof. unfold readback. by rewrite map_lookup_imap. Qed.
+  Lemma readback_dom c a : dom (readback c a) = dom c.
+  Proof.
+    apply set_eq. intros n. rewrite !elem_of_dom, readback_lookup. destruct (c !! n); simpl; split; intros [? ?]; eauto; done.
+  Qed.
+
+  Context (solver : solver_t).
+  Hypothesis solver_sound : ∀ F a, solver F = Some a → sat a F.
+  Hypothesis solver_complete : ∀ F, solver F = None → ∀ a, ¬ sat a F.
+
+  Theorem solve_with_spec C ord A : cnf_wf (c_g C) → closed (c_g C) → ord_ok (c_g C) ord →
+    (¬ dom A ⊆ dom (c_g C) → solve_with solver T C ord A = Raise ValueError) ∧
+    (dom A ⊆ dom (c_g C) →
+       (solve_with solver T C ord A = Ok None ∧ ¬ ∃ v, consistent (c_g C) v ∧ agreesA A v) ∨
+       (∃ r, solve_with solver T C ord A = Ok (Some r) ∧ dom r = dom (c_g C) ∧
+             let v := λ n, default false (r !! n) in consistent (c_g C) v ∧ agreesA A v)).
+  Proof.
+    intros Hwf Hcl Ho. destruct (cnf_with_total T Htab C ord Hwf Ho) as [F HF]. split.
+    - intros Hnd. unfold solve_with, cnf_assume. rewrite HF. simpl.
+      destruct (decide (A = ∅)) as [->|]; [exfalso; apply Hnd; rewrite dom_empty_L; set_solver|].
+      by rewrite decide_False by done.
+    - intros Hd. destruct (cnf_assume_spec C ord A F HF Hd) as (F' & HF' & Hsat).
+      unfold solve_with. rewrite HF'. simpl. destruct (solver F') as [a|] eqn:Es.
+      + right. exists (readback (c_g C) a). split; [done|]. split; [apply readback_dom|].
+        apply solver_sound, Hsat in Es as [Ha HA].
+        assert (Hag : agrees (dom (c_g C)) (a ∘ VN) (λ n, default false (readback (c_g C) a !! n))).
+        { intros n [i Hn]%elem_of_dom. rewrite readback_lookup, Hn. done. }
+        split.
+        * eapply consistent_agree; [done|exact Hag|]. by eapply cnf_with_sound.
+        * intros n b Hn. rewrite <- Hag; [by apply HA|]. apply Hd. apply elem_of_dom. eauto.
+      + left. split; [done|]. intros (v & Hv & HA). apply (solver_complete F' Es (ext v)). apply Hsat.
+        split; [by eapply cnf_with_complete_ext|]. intros n b Hn. by apply HA.
+  Qed.
+End top.
